@@ -100,11 +100,91 @@ def replay_findings(ctx):
             ctx.known(f, fails, "got %s" % r)
 
 
+def e2e_systematic(ctx):
+    """every presence combination of the four bound keywords (exclusive bounds in both forms) x multipleOf x integer/number x
+    position; constants chosen so that ties, nested and disjoint-by-one intervals occur; plus fractional bounds on integers in
+    the quadrant where int64() truncation is exact"""
+    out = []
+    k = 0
+    positions = ("required", "optional", "nullable", "definition", "item-ref")
+    for integer in (True, False):
+        u = 1 if integer else 0.5
+        forms_lo = [None, {"minimum": 2 * u}, {"exclusiveMinimum": 2 * u}, {"minimum": 2 * u, "exclusiveMinimum": True}, {"minimum": 2 * u, "exclusiveMinimum": False},
+                    {"minimum": 2 * u, "exclusiveMinimum": 2 * u}, {"minimum": 2 * u, "exclusiveMinimum": 1 * u}, {"minimum": 1 * u, "exclusiveMinimum": 3 * u},
+                    {"exclusiveMinimum": True}]
+        forms_hi = [None, {"maximum": 8 * u}, {"exclusiveMaximum": 8 * u}, {"maximum": 8 * u, "exclusiveMaximum": True}, {"maximum": 8 * u, "exclusiveMaximum": False},
+                    {"maximum": 8 * u, "exclusiveMaximum": 8 * u}, {"maximum": 8 * u, "exclusiveMaximum": 9 * u}, {"maximum": 9 * u, "exclusiveMaximum": 7 * u}]
+        mults = [None, 2 * u, 3 * u] if integer else [None, 0.5, 1.5]
+        for lo in forms_lo:
+            for hi in forms_hi:
+                for m in mults:
+                    if lo is None and hi is None and m is None:
+                        continue
+                    k += 1
+                    if ctx.tier == "quick" and k % 3 != 1:
+                        continue
+                    s = {"type": "integer" if integer else "number"}
+                    s.update(lo or {})
+                    s.update(hi or {})
+                    if m is not None:
+                        s["multipleOf"] = int(m) if integer else m
+                    for kk in list(s):
+                        if integer and isinstance(s[kk], float):
+                            s[kk] = int(s[kk])
+                    out.append((s, positions[k % len(positions)]))
+    # fractional bounds on integers where truncation toward zero agrees with the mathematical bound
+    for s in [{"minimum": -2.5}, {"exclusiveMinimum": 2.5}, {"maximum": 7.5}, {"exclusiveMaximum": -2.5},
+              {"exclusiveMinimum": 2.5, "maximum": 7.5}, {"minimum": -7.5, "exclusiveMaximum": -2.5}, {"exclusiveMinimum": 0.5, "multipleOf": 2}]:
+        for pos in positions[:3]:
+            out.append((dict(s, type="integer"), pos))
+    roots = []
+    for s, pos in out:
+        if pos in ("definition", "item-ref") and s["type"] == "number" and "multipleOf" in s:
+            pos = "optional"          # multipleOf on a named float definition does not compile (D31, recorded under C01)
+        root = {"type": "object", "properties": {"other": {"type": "string"}}}
+        if pos == "required":
+            root["properties"]["n"] = s
+            root["required"] = ["n"]
+        elif pos == "optional":
+            root["properties"]["n"] = s
+        elif pos == "nullable":
+            root["properties"]["n"] = dict(s, type=[s["type"], "null"])
+        elif pos == "definition":
+            root["$defs"] = {"Num": s}
+            root["properties"]["n"] = {"$ref": "#/$defs/Num"}
+        else:
+            root["$defs"] = {"Num": s}
+            root["properties"]["n"] = {"type": "array", "items": {"$ref": "#/$defs/Num"}}
+        roots.append(root)
+    return roots
+
+
+def run_e2e(ctx):
+    from vlib.valuecheck import build_cases, evaluate
+    from vlib.kitchen import run_cases
+    classes = {"bound", "number-valid", "optional-absent", "null-allowed", "valid"}
+    sysm = e2e_systematic(ctx)
+    n = 20 if ctx.tier == "quick" else 300
+    cases = build_cases(ctx, len(sysm) + n, ["integer", "number"], classes | {"type"}, "c05x", extra_schemas=sysm, docs_per=2,
+                        gen_kwargs={"allow_formats": False, "allow_enums": False})
+    run_cases(ctx, cases, "c05e")
+    evaluate(ctx, cases, classes, {"bound": "invalid", "number-valid": "valid", "optional-absent": "by-spec", "null-allowed": "valid", "valid": "valid"},
+             "numeric bounds")
+    c = cases[11]
+    ctx.sample({"family": "e2e/" + c.fam, "schema": c.schema, "doc": c.docs[1]["doc"], "class": c.docs[1]["cls"], "impl": (c.docs[1].get("obs") or {}).get("v")})
+
+
 def run(ctx):
     ok = ctx.proof_step(PROPS_FILE)
     run_direct(ctx)
+    run_e2e(ctx)
     replay_findings(ctx)
-    ctx.cov["rule"] = ("normalize-direct: every (minimum, maximum, exclusiveMinimum, exclusiveMaximum) tuple with each constant "
+    from vlib.valuecheck import replay_findings as rf
+    rf(ctx)
+    ctx.cov["rule"] = ("e2e: generated programs for every presence combination of minimum/maximum/exclusive bounds (boolean and numeric form, ties, tighter "
+                       "and looser exclusives) x multipleOf x integer/number x 5 positions (every third one in the quick tier), fractional integer bounds in the exact "
+                       "quadrant, random numeric-focused schemas; documents: the values on, next to and between the bounds, absent, null; "
+                       "normalize-direct: every (minimum, maximum, exclusiveMinimum, exclusiveMaximum) tuple with each constant "
                        "absent or drawn from a 4-value palette (all order types incl. ties), exclusive bounds also true/false; "
                        "non-trivial = at least two keywords present; distinct by hash of the argument tuple")
     ctx.cov["exhaustive"] = True
@@ -113,6 +193,9 @@ def run(ctx):
 def replay(ctx, path):
     obj = json.load(open(path))
     case = obj.get("case", obj.get("witness", {}))
+    if case.get("kind") == "kitchen":
+        from vlib.valuecheck import replay as rp
+        return rp(ctx, path)
     if case.get("kind") == "direct":
         r = ctx.jsonl("direct", [case["args"]])[0]
         print("implementation returns:", json.dumps(r))
